@@ -132,6 +132,12 @@ type Exec struct {
 	untrackedAppend bool // an append whose destination is not an append-chain from a parameter / nil / fresh slice
 	catDirty   bool // some instruction stored into byte memory in place
 	catGoal    bool // evaluating an ensures goal in positive position
+	panicking  *IfaceVal // non-nil while the deferred calls of a panicking path run and recover() was not called yet
+	recovered  bool
+	ucalls     []ucallRec // calls of unknown callees, in execution order
+	arbRegs    map[ssa.Value]Val
+	arbBools   map[string]*Term
+	stepOutcomes map[int][][2]*Term // loop ordinal -> (guard, reported in the iteration) per back edge
 }
 
 type execErr struct{ msg string }
@@ -756,7 +762,15 @@ func (x *Exec) cutLoopAtHeader(fn *ssa.Function, l *Loop, spec *LoopSpec, st *St
 		}
 		st.Regs[phi] = x.freshVal(fmt.Sprintf("loop%d.%s", l.Ordinal, phi.Name()), phi.Type())
 	}
+	if len(spec.Steps) > 0 {
+		if _, ok := st.Ghost["reports"]; !ok {
+			st.Ghost["reports"] = o.Int(0)
+		}
+	}
 	mods := x.loopMods(l, st)
+	if len(spec.Steps) > 0 {
+		mods.ghost["reports"] = true
+	}
 	var havockedSlices []SliceVal
 	modObjs := make([]*Object, 0, len(mods.objs))
 	for obj := range mods.objs {
@@ -804,7 +818,14 @@ func (x *Exec) cutLoopAtHeader(fn *ssa.Function, l *Loop, spec *LoopSpec, st *St
 	for _, g := range ghostNames {
 		if v, ok := st.Ghost[g]; ok {
 			st.Ghost[g] = x.freshLike(fmt.Sprintf("loop%d.%s", l.Ordinal, g), v)
+			if g == "reports" {
+				// the report counter only grows
+				x.assume(o.Le(v.(*Term), st.Ghost[g].(*Term)))
+			}
 		}
+	}
+	if len(spec.Steps) > 0 {
+		st.Ghost[fmt.Sprintf("$iter%d.reports", l.Ordinal)] = st.Ghost["reports"]
 	}
 	// 3. assume invariant
 	env = x.loopEnv(fn, l, st)
@@ -826,6 +847,21 @@ func (x *Exec) loopBackEdge(fn *ssa.Function, l *Loop, from *ssa.BasicBlock, st 
 	spec := x.loopSpec(l)
 	for i, inv := range spec.Invs {
 		x.oblige("inv-preserve", fmt.Sprintf("loop%d.%d", l.Ordinal, i), inv.Tags, inv.Text, st.Guard, x.evalClause(env, inv))
+	}
+	if len(spec.Steps) > 0 {
+		// vacuity guard: over all back edges, some iteration reports and some stays silent
+		ir, _ := st.Ghost[fmt.Sprintf("$iter%d.reports", l.Ordinal)].(*Term)
+		cur, _ := st.Ghost["reports"].(*Term)
+		if ir != nil && cur != nil {
+			if x.stepOutcomes == nil {
+				x.stepOutcomes = map[int][][2]*Term{}
+			}
+			x.stepOutcomes[l.Ordinal] = append(x.stepOutcomes[l.Ordinal], [2]*Term{st.Guard, o.Lt(ir, cur)})
+		}
+	}
+	for i, sc := range spec.Steps {
+		env.iterReports, _ = st.Ghost[fmt.Sprintf("$iter%d.reports", l.Ordinal)].(*Term)
+		x.oblige("step", fmt.Sprintf("loop%d.%d", l.Ordinal, i), sc.Tags, sc.Text, st.Guard, x.evalClause(env, sc))
 	}
 	if spec.Decreases != nil {
 		old := st.Ghost[fmt.Sprintf("$dec%d", l.Ordinal)].(*Term)
@@ -919,7 +955,13 @@ func (x *Exec) loopMods(l *Loop, st *State) modSet {
 				} else if _, isBuiltin := c.Value.(*ssa.Builtin); isBuiltin {
 					touchesGhost = false
 				}
+				dynamic := c.StaticCallee() == nil
 				for g := range st.Ghost {
+					if dynamic && strings.HasPrefix(g, "held:") {
+						// an unknown callee cannot name another package's private mutex; if it calls functions that
+						// use it, they leave it as they found it
+						continue
+					}
 					if !strings.HasPrefix(g, "$") && touchesGhost {
 						m.ghost[g] = true
 					}
